@@ -3,23 +3,36 @@
    [cb_run] is the Gallina mirror of the circuitbreaker package (bit ring, time buckets, float64
    rates, states, transitions, builder); [spec_brun] is the same three-state machine over the
    documented windows (a plain log of the results recorded in the current state). *)
-From FS Require Import Spec.BreakerSpec Proofs.BreakerProofs Corr.C03.
+From FS Require Import Spec.BreakerSpec Proofs.BreakerProofs Proofs.BreakerTimedProofs Corr.C03.
 
-(* 1. Count-based configurations: for every builder configuration in the guard and every history,
-      state, admission decisions, metrics, remaining delay and events of the code's machine are
-      those of the documented machine ("the last N results" window). *)
+(* 1. EVERY configuration in the guard (count, ratio, time-windowed count and time-windowed rate failure thresholds,
+      with or without success threshold / ratio, fixed delay or delay function) and every history of records, permit
+      requests, manual transitions and clock advances (instants non-decreasing): state, admission decisions, metrics,
+      remaining delay and events of the code's machine -- bit ring, ten time buckets with running summaries -- are
+      those of the documented machine over the documented windows ("the last N results"; "the results recorded in
+      the last ten time slices counted from the most recent record"). *)
+Theorem C03_breaker_refines_documented_windows : forall c h,
+  bcfg_ok c = true -> bhist_ok 0 h = true -> cb_run c h = spec_brun c h.
+Proof. exact breaker_refines_windows. Qed.
+Print Assumptions C03_breaker_refines_documented_windows.
+
+(* 1b. (the count-based half, as first proved) *)
 Theorem C03_counting_breaker_refines_windows : forall c h,
   bcfg_ok c = true -> b_fperiod c = 0 -> bhist_ok 0 h = true -> cb_run c h = spec_brun c h.
 Proof. exact counting_breaker_refines_windows. Qed.
 Print Assumptions C03_counting_breaker_refines_windows.
 
-(* 2. Time-based windows (partial: the full refinement of the ten-bucket ring to the documented
-      window is validated by the correspondence, not proved): the running summary the thresholds
-      read always equals the sum of the ten buckets ... *)
-Theorem C03_timed_summary_is_bucket_sum_partial : forall t now v,
+(* 2. Time-based windows: the ten buckets relative to the head slice hold exactly the results of their slices, and the
+      running summary the thresholds read is the count over the documented window (the invariant behind 1.) ... *)
+Theorem C03_timed_buckets_are_the_window : forall nanos t ts log now v,
+  Rtimed nanos t ts log -> t <= now -> Rtimed nanos now (ts_record ts now v) ((now, v) :: log).
+Proof. exact Rtimed_record. Qed.
+Print Assumptions C03_timed_buckets_are_the_window.
+
+Theorem C03_timed_summary_is_bucket_sum : forall t now v,
   ts_consistent t -> ts_consistent (ts_record t now v).
 Proof. exact timed_stats_summary_is_bucket_sum. Qed.
-Print Assumptions C03_timed_summary_is_bucket_sum_partial.
+Print Assumptions C03_timed_summary_is_bucket_sum.
 
 (* ... and the documented window itself: a result at least ten slices (the period) older than
    the newest never counts, one less than nine slices older always does. *)
@@ -77,22 +90,27 @@ Theorem C03_history_events_form_path : forall S (I : stats_impl S) c h s,
 Proof. exact @history_events_form_path. Qed.
 Print Assumptions C03_history_events_form_path.
 
-(* 7. Used by the correspondence (count-based configurations): a trace equal to the model's
-      equals the documented machine's. *)
-Theorem C03_checker_sound_counting : forall id calls h obs,
-  b_fperiod (build_bcfg calls) = 0 ->
+(* 7. Used by the correspondence: a trace equal to the model's equals the documented machine's. *)
+Theorem C03_checker_sound : forall id calls h obs,
   agrees cb_run (CaseHist id calls h obs) = agrees spec_brun (CaseHist id calls h obs).
 Proof.
-  intros id calls h obs Hp. cbn [agrees]. unfold hist_guard.
+  intros id calls h obs. cbn [agrees]. unfold hist_guard.
   destruct (bcfg_ok (build_bcfg calls)) eqn:E1; [|reflexivity].
   destruct (bhist_ok 0 h) eqn:E2; [|reflexivity]. cbn [andb].
-  rewrite (counting_breaker_refines_windows _ _ E1 Hp E2). reflexivity.
+  rewrite (breaker_refines_windows _ _ E1 E2). reflexivity.
 Qed.
-Print Assumptions C03_checker_sound_counting.
+Print Assumptions C03_checker_sound.
 
 Example C03_guard_inhabited :
   let c := build_bcfg [WithFailureThresholdRatio 2 3; WithSuccessThreshold 2; WithDelay 10] in
   let h := [(5, BRecordFailure); (6, BRecordSuccess); (7, BRecordFailure); (8, BTryAcquire); (17, BTryAcquire);
             (18, BRecordSuccess); (19, BRecordSuccess)] in
   bcfg_ok c = true /\ bhist_ok 0 h = true /\ map ob_state (cb_run c h) = [0; 0; 1; 1; 2; 2; 0].
+Proof. vm_compute. auto. Qed.
+
+Example C03_guard_inhabited_timed :
+  let c := build_bcfg [WithFailureRateThreshold 50 2 1000; WithDelay 10] in
+  let h := [(5, BRecordFailure); (150, BRecordSuccess); (1100, BRecordFailure); (1200, BRecordFailure); (1210, BTryAcquire)] in
+  bcfg_ok c = true /\ bhist_ok 0 h = true /\ map ob_state (cb_run c h) = map ob_state (spec_brun c h)
+  /\ map ob_state (cb_run c h) = [0; 1; 1; 1; 2].
 Proof. vm_compute. auto. Qed.
